@@ -119,9 +119,7 @@ Section Transf.
         (* the `arguments` record is copied as it is: defaults are NOT rewritten *)
         let! body' := transf comp body in ret (Lambda po ar va ko kd kw de body')
     | IfExp t b o => let! t' := transf comp t in let! b' := transf comp b in let! o' := transf comp o in ret (IfExp t' b' o')
-    | Yield v => let! v' := topt comp v in ret (Yield v')
-    | YieldFrom v => let! v' := transf comp v in ret (YieldFrom v')
-    | Await v => let! v' := transf comp v in ret (Await v')
+    | Yield _ | YieldFrom _ | Await _ => fail ERuntime     (* generators / coroutines are refused *)
     | Other k => ret (Other k)
     end.
 End Transf.
@@ -330,10 +328,27 @@ Definition lower_augassign (n : nsp) (p : path) (target : expr) (op : binop) (va
   end.
 
 (* ---------- imports ---------- *)
+(* str.split(".")[0] and "." in name *)
+Fixpoint before_dot (s : string) : string :=
+  match s with
+  | EmptyString => EmptyString
+  | String c r => if Ascii.eqb c "."%char then EmptyString else String c (before_dot r)
+  end.
+Fixpoint has_dot (s : string) : bool :=
+  match s with
+  | EmptyString => false
+  | String c r => Ascii.eqb c "."%char || has_dot r
+  end.
+
 Definition lower_import (n : nsp) (names : list (ident * option ident)) : res (list expr) :=
   rmap (fun al =>
-          let asname := match snd al with Some a => a | None => fst al end in
-          get_assign n asname (call (Attribute (Name "importlib") "import_module") [cstr (fst al)])) names.
+          match snd al with
+          | None =>
+              if has_dot (fst al)
+              then get_assign n (before_dot (fst al)) (call (Name "__import__") [cstr (fst al)])   (* binds the top-level package *)
+              else get_assign n (fst al) (call (Attribute (Name "importlib") "import_module") [cstr (fst al)])
+          | Some a => get_assign n a (call (Attribute (Name "importlib") "import_module") [cstr (fst al)])
+          end) names.
 
 Definition lower_importfrom (n : nsp) (p : path) (module : option ident) (names : list (ident * option ident)) (level : Z)
   : res (list expr) :=
@@ -352,11 +367,11 @@ Definition lower_importfrom (n : nsp) (p : path) (module : option ident) (names 
 Section Stmts.
   Variable cfg : config.
 
-  Definition while_comp (body test : expr) : expr :=
+  Definition while_comp (var : ident) (body test : expr) : expr :=
     ListComp body
-      [(Name "_",
+      [(Name var,
         call (Attribute (Name "itertools") "takewhile")
-             [Lambda [] ["_"] None [] [] None [] test; call (Attribute (Name "itertools") "count") []],
+             [Lambda [] [var] None [] [] None [] test; call (Attribute (Name "itertools") "count") []],
         [], false)].
 
   Definition if_result (test : expr) (body orelse : list expr) : expr :=
@@ -407,24 +422,26 @@ Section Stmts.
         let test' := if has_break then BoolOp And [UnaryOp Not (Name brk); t] else t in
         let orelse := if has_break then IfExp (UnaryOp Not (Name brk)) (wrap cfg o') ellipsis else wrap cfg o' in
         ret ((if has_break then [NamedExpr brk cfalse] else [])
-             ++ [while_comp (wrap cfg body) test']
+             ++ [while_comp (ol "while" (path_str p)) (wrap cfg body) test']
              ++ (match o' with [] => [] | _ => [orelse] end))
     | SFor target iter b o =>
         let has_break := brk_block b in
         let me := mkLoop LFor p (uses_flag mi_loop b) in
         let! b' := block (mkCtx n (me :: c_loops c) (c_ret_used c)) p 0 0 b in
         let! o' := block c p 1 0 o in
+        let ftmp := ol "for" (path_str p) in
+        let! bind := assign_auto n (2 :: p) target (Name ftmp) in
         let! it := tr n iter in
         if negb (mi_block b) && (match o with [] => true | _ => false end) then
-          ret [ListComp (wrap cfg b') [(target, it, [], false)]]
+          ret [ListComp (wrap cfg (bind ++ b')) [(Name ftmp, it, [], false)]]
         else
-          let body := (if lp_intr_used me then [NamedExpr (intr_name p) cfalse] else []) ++ b' in
+          let body := (if lp_intr_used me then [NamedExpr (intr_name p) cfalse] else []) ++ bind ++ b' in
           let itn := it_name p in
           let orelse :=
             if has_break then IfExp (UnaryOp Not (Attribute (Name itn) "_break")) (wrap cfg o') ellipsis
             else wrap cfg o' in
           ret ((if has_break then [NamedExpr itn (call (Name "__ol_iter_wrapper") [it])] else [])
-               ++ [ListComp (wrap cfg body) [(target, (if has_break then Name itn else it), [], false)]]
+               ++ [ListComp (wrap cfg body) [(Name ftmp, (if has_break then Name itn else it), [], false)]]
                ++ (match o' with [] => [] | _ => [orelse] end))
     | SBreak =>
         match c_loops c with
@@ -526,8 +543,8 @@ Section Stmts.
                 let class_body := [NamedExpr "__class__" load1; NamedExpr cd (EDict [] [])] ++ b' ++ [Name cd] in
                 ret [create;
                      NamedExpr loader (lambda0 (Subscript (EList class_body) (UnaryOp USub (cint 1))));
-                     ListComp (call (Name "setattr") [load1; Name "k"; Name "v"])
-                              [(ETuple [Name "k"; Name "v"],
+                     ListComp (call (Name "setattr") [load1; Name (ol "key" (path_str p)); Name (ol "value" (path_str p))])
+                              [(ETuple [Name (ol "key" (path_str p)); Name (ol "value" (path_str p))],
                                 call (Attribute (call (Name loader) []) "items") [], [], false)]]
             | _ => fail EAssert
             end
